@@ -231,6 +231,40 @@ def mutations(g, s):
     return out
 
 
+def namesake_family(seed, n):
+    """a null-namespace type and an undotted reference of the same simple name from inside a namespace: the reference
+    means <namespace>.<name> — the namesake in the null namespace is a different type (valid only if <namespace>.<name>
+    is defined too, and then the reference denotes that one)"""
+    import random
+    out = []
+    for i in range(n):
+        r = random.Random(seed * 1117 + i)
+        nm = r.choice(["Kind", "Item", "T0"])
+        ns = r.choice(["a", "a.b", "org"])
+
+        def definition(full, variant):
+            if variant == "enum":
+                return {"type": "enum", "name": full, "symbols": ["X", "Y"] if "." in full else ["P"]}
+            if variant == "fixed":
+                return {"type": "fixed", "name": full, "size": 3 if "." in full else 2}
+            return {"type": "record", "name": full, "fields": [{"name": "q" if "." in full else "p", "type": "int"}]}
+        v1, v2 = r.choice(["enum", "fixed", "record"]), r.choice(["enum", "fixed", "record"])
+        both = r.random() < 0.5
+        ref = nm
+        pos = r.choice(["field", "array", "map", "union"])
+        reft = {"field": ref, "array": {"type": "array", "items": ref}, "map": {"type": "map", "values": ref}, "union": ["null", ref]}[pos]
+        inner_fields = []
+        if both:
+            inner_fields.append({"name": "own", "type": definition(ns + "." + nm, v2)})
+        inner_fields.append({"name": "use", "type": reft})
+        inner = {"type": "record", "name": "Inner", "namespace": ns, "fields": inner_fields}
+        top = {"type": "record", "name": "Top", "fields": [{"name": "first", "type": definition(nm, v1)}, {"name": "in", "type": inner}]}
+        if r.random() < 0.3:
+            top = [definition(nm, v1), inner]
+        out.append(("valid:namesake" if both else "undefined-ref:namesake", top))
+    return out
+
+
 def run(tier, seed):
     run = Run("C11", tier, seed)
     run.rule = ("valid schemas of the generator (nested namespaces incl. explicit empty ones, dotted names, references "
@@ -253,6 +287,7 @@ def run(tier, seed):
                 cases.append((kind, m))
         except Exception:
             pass
+    cases += namesake_family(seed, scale(tier, 40))
     spec = run_batch([{"op": "spec.canon", "schema": to_wire(s)} for k, s in cases])
     model = run_batch([{"op": "parse", "schema": to_wire(s)} for k, s in cases])
     for k, (kind, s) in enumerate(cases):
